@@ -130,6 +130,8 @@ void build_alphabets() {
   // f(x) -> y, local z; the formal x is never assigned
   FS = {skip(), assign(VY, lin({{1, VX}})), assign(VY, lin({{1, VX}}, 1)), assign(VY, lin({}, 0)), assign(VZ, lin({{1, VX}}, -1)),
         call("f", VY, VZ), call("g", VY, VX)};
+  // an assertion inside the callee: it is checked once per calling context, the verdicts of one location accumulate
+  if (PROP == "C02" || PROP == "C09") FS.push_back(assertion(cst({{1, VX}}, 0, C_LEQ), 21));
   if (th) { FS.push_back(assign(VY, lin({{1, VY}}, 1))); FS.push_back(call("f", VY, VX)); FS.push_back(havoc(VY)); FS.push_back(assign(VY, lin({{1, VZ}}))); }
   NG = th ? 6 : 4;
   NH = th ? 4 : 2;
@@ -227,7 +229,13 @@ IProg make_prog(const ProgId &id, bool &uses_g, bool &uses_h) {
     p.fname = "f";
     p.inputs = {VX};
     p.outputs = {VY};
-    auto put = [&](int b, const Stmt &s) { if (!is_skip(s)) p.blocks[b].stmts.push_back(s); };
+    int slot = 0; // every occurrence of the assertion gets its own id
+    auto put = [&](int b, const Stmt &s0) {
+      Stmt s = s0;
+      slot++;
+      if (s.kind == S_ASSERT) s.a = 20 + slot;
+      if (!is_skip(s)) p.blocks[b].stmts.push_back(s);
+    };
     if (id.fshape == 0) {
       p.blocks.resize(2);
       put(0, FS[id.s1]);
@@ -647,18 +655,19 @@ void run_program(const ProgId &id, const std::string &only_dom) {
             crab::checker::checks_db db = a.get_all_checks();
             for (auto &kv : db.get_all_checks()) {
               int aid = (int)kv.first.get_id();
+              // one entry per checked calling context: the location is classified safe (unreachable) only if no
+              // entry is a warning or an error (and every entry is unreachable)
+              bool any_safe = false, any_unreach = false, any_other = false;
               for (auto k : kv.second) {
-                if (k == crab::checker::check_kind::CRAB_SAFE) {
-                  n_safe++;
-                  if (Ou->violated.count(aid))
-                    report(dc.e->name, "checker:safe-but-violated", cspec, ctx + " => assertion #" + std::to_string(aid) + " reported SAFE but some execution violates it");
-                } else if (k == crab::checker::check_kind::CRAB_UNREACH) {
-                  n_unreach++;
-                  if (Ou->reached.count(aid))
-                    report(dc.e->name, "checker:unreachable-but-reached", cspec, ctx + " => assertion #" + std::to_string(aid) + " reported UNREACHABLE but some execution reaches it");
-                } else
-                  n_warn++;
+                if (k == crab::checker::check_kind::CRAB_SAFE) { n_safe++; any_safe = true; }
+                else if (k == crab::checker::check_kind::CRAB_UNREACH) { n_unreach++; any_unreach = true; }
+                else { n_warn++; any_other = true; }
               }
+              if (any_other) continue;
+              if ((any_safe || any_unreach) && Ou->violated.count(aid))
+                report(dc.e->name, "checker:safe-but-violated", cspec, ctx + " => every verdict recorded for assertion #" + std::to_string(aid) + " is SAFE/UNREACHABLE but some execution violates it");
+              else if (any_unreach && !any_safe && Ou->reached.count(aid))
+                report(dc.e->name, "checker:unreachable-but-reached", cspec, ctx + " => assertion #" + std::to_string(aid) + " reported UNREACHABLE (in every context) but some execution reaches it");
             }
           } catch (budget_exceeded &) {
             n_budget++;
